@@ -170,6 +170,38 @@ def run_item(item):
                     break
             if dbg and "p_id" in o.columns and not np.array_equal(o["p_id"].to_numpy(), df["p_id"].to_numpy()):
                 viol("index_labels:debug_inputs", f"index labels '{lab_name}': debug output rows are not the input rows in input order")
+    # other time units of a computed column requested together with it (derived nodes must not disturb their source)
+    import re as _re2
+
+    ure = _re2.compile(r"(?P<base>.*_)(?P<u>[ymwd])(?P<agg>_hh|_wthh|_fg|_bg|_eg|_ehe|_sn)?$")
+    cand = [t for t in nodes if ure.match(t) and not t.endswith("_id")]
+    for _ in range(4 if item["tier"] == "quick" else 12):
+        if not cand:
+            break
+        t = cand[int(rng.integers(0, len(cand)))]
+        m2 = ure.match(t)
+        variants = [f"{m2.group('base')}{u}{m2.group('agg') or ''}" for u in "ymwd" if u != m2.group("u")]
+        variants = [v for v in variants if v not in df.columns]
+        for combo in ([t, *variants], [*variants[::-1], t], [t, variants[-1]]):
+            try:
+                with warnings.catch_warnings():
+                    warnings.simplefilter("ignore")
+                    o = env.compute_taxes_and_transfers(df, params, functions, targets=list(combo))
+            except ValueError as e:
+                if "no corresponding function" in str(e):
+                    break
+                viol(f"exception:unit_variants:{type(e).__name__}", f"targets={combo} raise {type(e).__name__}: {str(e)[:150]}")
+                break
+            except Exception as e:  # noqa: BLE001
+                viol(f"exception:unit_variants:{type(e).__name__}", f"targets={combo} raise {type(e).__name__}: {str(e)[:150]}")
+                break
+            res["runs"] += 1
+            res["kinds"]["unit_variants"] = res["kinds"].get("unit_variants", 0) + 1
+            res["columns_compared"] += 1
+            if not _eq(o[t].to_numpy(), S0[t].to_numpy()):
+                viol(f"unit_variants:{m2.group('u')}", f"column {t} changes when its other time units {variants} are requested together with it "
+                                                     f"(row 0: {o[t].iloc[0]!r} vs {S0[t].iloc[0]!r})")
+                break
     # unused columns whose names look like another time unit of a computed column
     import re as _re
 
